@@ -8,6 +8,5 @@ CONSTANTS
   NumSel <- NumSel_none
 SPECIFICATION GenSpec
 INVARIANT TypeInv
-INVARIANT ModelInv
 INVARIANT PrintLeaf
 CHECK_DEADLOCK FALSE
